@@ -231,12 +231,17 @@ class LoopSpec:
             ok0, cur0 = fr.lookup(m)
             path.oblige(oid(f"{self.name} / init: {m} is the empty list"), z3.BoolVal(ok0 and isinstance(cur0, PList) and not cur0.items),
                         kind="inv-init")
+        dictspecs = {m: sp_ for m, sp_ in self.havoc.items() if isinstance(sp_, DictSpec)}
+        for m in dictspecs:
+            ok0, cur0 = fr.lookup(m)
+            path.oblige(oid(f"{self.name} / init: {m} is the empty dict"), z3.BoolVal(ok0 and isinstance(cur0, PDict) and not cur0.items),
+                        kind="inv-init")
         i_pre = sym.fresh("i_" + self.name, sym.I)
         for m in modified:
             if m in target_names:
                 continue
             ok, cur = fr.lookup(m)
-            if m in listspecs:
+            if m in listspecs or m in dictspecs:
                 continue
             fr.assign(m, self.havoc_value(ip, m, cur))
         if mutated is not None:
@@ -246,6 +251,12 @@ class LoopSpec:
             i = i_pre
             for m, ls in listspecs.items():
                 fr.assign(m, GList(SSeq(i, ls.spec_elem, "list", ls.tagname, tag=("listspec", ls.tagname)), []))
+            dict_writes = {}
+            for m, ds in dictspecs.items():
+                writes = []
+                dict_writes[m] = writes
+                fr.assign(m, SpecFn(None, f"dict {m} under construction",
+                                    meta={"setitem": lambda ip_, k_, v_, w=writes: w.append((k_, v_))}))
             path.assume(i >= 0)
             path.assume(i < n)
             ip.reg.loop_index(ip, i)
@@ -286,11 +297,19 @@ class LoopSpec:
                 finally:
                     for nm_, v_ in saved.items():
                         fr.locals[nm_] = v_
+            for m, ds in dictspecs.items():
+                w = dict_writes[m]
+                if len(w) != 1:
+                    goalsn.append(z3.BoolVal(False))
+                    continue
+                goalsn.extend(ds.written(ip, w[0][0], w[0][1], i))
             ip.reg.saturate(ip)
             for j, g in enumerate(goalsn):
                 path.oblige(oid(f"{self.name} / preserve #{j}"), g, kind="inv-preserve")
             raise PathCut()
         # exit: invariant at n
+        for m, ds in dictspecs.items():
+            fr.assign(m, ds.make_map(ip, n))
         for m, ls in listspecs.items():
             fr.assign(m, SSeq(n, ls.spec_elem, "list", ls.tagname, tag=("listspec", ls.tagname)))
         ste = LoopSpec.State(ip, fr, n, n, S)
@@ -339,6 +358,15 @@ class ListSpec:
         self.spec_elem = spec_elem
         self.equal = equal
         self.tagname = tagname
+
+
+class DictSpec:
+    """Specification of a dict built by one `d[key] = value` per iteration: after i iterations the dict is make_map(ip, i)
+    (an SMap over the first i source elements); written(ip, key, value, i) returns the goals stating that the pair written in
+    iteration i is the pair the map specifies for position i."""
+    def __init__(self, make_map, written):
+        self.make_map = make_map
+        self.written = written
 
 
 class PathCut(Exception):
